@@ -29,7 +29,8 @@ CONSTANTS MaxEp,          \* spa objects (connection attempts) per behaviour
           KF_NotFound,    \* D9: ERROR_SPA_NOT_FOUND is terminal
           Unreliable,     \* TRUE: under net = "bad" individual requests may still succeed (lossy phases); FALSE: blackout
           AllowExit,      \* the context may be left (C10); FALSE for the liveness configurations
-          KF_Overtake     \* D10: pump actions between reset head and reset tail (suspended handler)
+          KF_Overtake,    \* D10: pump actions between reset head and reset tail (suspended handler)
+          MaxSockFail     \* endpoint creations that raise OSError (a locate / connect phase that raises)
 
 Eps == 1..MaxEp
 PUMP == <<"PUMP", 0>>
@@ -41,10 +42,10 @@ Tasks == {PUMP, USER, LOC, MAIN} \cup { <<"PING", e>> : e \in Eps } \cup { <<"BG
 Errs == {"ERR_PING", "ERR_RF", "NEEDS_ATT"}
 
 VARIABLES st, descr, facade, spa, sensor, spaConn, spaOpen, epOpen, spaTasks, facTask, locEp, locTasks,
-          announced, locBr, connBr, kf, net, nNet, nSusp, nReset, nBg, running, todo, alive, dying, last,
+          announced, locBr, connBr, kf, net, nNet, nSusp, nReset, nBg, nFail, running, todo, alive, dying, last,
           nextEp, nextFac, found, exited, fresh
 vars == <<st, descr, facade, spa, sensor, spaConn, spaOpen, epOpen, spaTasks, facTask, locEp, locTasks,
-          announced, locBr, connBr, kf, net, nNet, nSusp, nReset, nBg, running, todo, alive, dying, last,
+          announced, locBr, connBr, kf, net, nNet, nSusp, nReset, nBg, nFail, running, todo, alive, dying, last,
           nextEp, nextFac, found, exited, fresh>>
 
 \* ---------------------------------------------------------------- frames
@@ -64,7 +65,7 @@ Init ==
   /\ st = "IDLE" /\ descr = "none" /\ facade = 0 /\ spa = 0 /\ sensor = "absent"
   /\ spaConn = [e \in Eps |-> FALSE] /\ spaOpen = [e \in Eps |-> FALSE] /\ epOpen = [e \in Eps |-> FALSE]
   /\ spaTasks = [e \in Eps |-> FALSE] /\ facTask = FALSE /\ locEp = FALSE /\ locTasks = FALSE
-  /\ announced = FALSE /\ locBr = 0 /\ connBr = 0 /\ kf = {} /\ net = "ok" /\ nNet = 0 /\ nSusp = 0 /\ nReset = 0 /\ nBg = 0
+  /\ announced = FALSE /\ locBr = 0 /\ connBr = 0 /\ kf = {} /\ net = "ok" /\ nNet = 0 /\ nSusp = 0 /\ nReset = 0 /\ nBg = 0 /\ nFail = 0
   /\ running = None
   /\ todo = [t \in Tasks |-> IF t = PUMP THEN <<R("SPA_MAN_ENTER"), F("pumpTop")>> ELSE <<>>]
   /\ alive = [t \in Tasks |-> t = PUMP] /\ dying = [t \in Tasks |-> FALSE]
@@ -124,7 +125,7 @@ StepRaise(t) ==
      ELSE /\ st' = PreState(ev)
           /\ Push(t, WithFin(Nested(ev), fr.fin) \o <<mk(ev)>>)
           /\ UNCHANGED <<sensor, announced>>
-  /\ UNCHANGED <<descr, facade, spa, kf, net, nNet, nSusp, nReset, nBg, alive, dying, last, nextEp, nextFac, found,
+  /\ UNCHANGED <<descr, facade, spa, kf, net, nNet, nSusp, nReset, nBg, nFail, alive, dying, last, nextEp, nextFac, found,
                  exited, locBr, connBr>> /\ UNCH_RES
 
 StepDeliver(t) ==
@@ -139,14 +140,14 @@ StepDeliver(t) ==
               sensor |-> (IF sensor = "absent" THEN sensor ELSE Text(st)), by |-> t, ann |-> announced',
               prevann |-> announced, prevst |-> last.st, leak |-> FALSE]
   /\ Pop(t)
-  /\ UNCHANGED <<st, descr, facade, spa, kf, net, nNet, nSusp, nReset, nBg, alive, dying, nextEp, nextFac, found, exited>>
+  /\ UNCHANGED <<st, descr, facade, spa, kf, net, nNet, nSusp, nReset, nBg, nFail, alive, dying, nextEp, nextFac, found, exited>>
   /\ UNCH_RES
 
 \* the client's handle_event really awaits: the delivering task is suspended in mid-sequence
 Suspend(t) ==
   /\ running = t /\ last.by = t /\ fresh /\ nSusp < MaxSusp /\ todo[t] # <<>>
   /\ running' = None /\ nSusp' = nSusp + 1 /\ fresh' = FALSE
-  /\ UNCHANGED <<st, descr, facade, spa, sensor, announced, locBr, connBr, kf, net, nNet, nReset, nBg, todo, alive, dying,
+  /\ UNCHANGED <<st, descr, facade, spa, sensor, announced, locBr, connBr, kf, net, nNet, nReset, nBg, nFail, todo, alive, dying,
                  last, nextEp, nextFac, found, exited>> /\ UNCH_RES
 
 \* ---------------------------------------------------------------- reset (async_reset)
@@ -160,7 +161,7 @@ StepResetHead(t) ==
      THEN /\ spaConn' = [spaConn EXCEPT ![spa] = FALSE]
           /\ Push(t, <<R("SPA_DISCONNECTED"), [FA("resetTail", spa) EXCEPT !.ev = IF st = "CONNECTED" THEN "IDLE" ELSE st]>>)
      ELSE /\ Push(t, <<[FA("resetTail", 0) EXCEPT !.ev = st]>>) /\ UNCHANGED spaConn
-  /\ UNCHANGED <<st, spa, sensor, announced, locBr, connBr, kf, net, nNet, nSusp, nReset, nBg, alive, dying, last, nextEp, nextFac,
+  /\ UNCHANGED <<st, spa, sensor, announced, locBr, connBr, kf, net, nNet, nSusp, nReset, nBg, nFail, alive, dying, last, nextEp, nextFac,
                  found, exited, spaOpen, epOpen, spaTasks, locEp, locTasks>>
 
 \* the rest of spa.disconnect() and of async_reset, after the DISCONNECTED delivery returned
@@ -180,13 +181,17 @@ StepResetTail(t) ==
   /\ kf' = IF KF_Overtake /\ (spa # obj \/ st # Head(todo[t]).ev \/ facade # 0 \/ descr # "none")
            THEN kf \cup {"Overtake"} ELSE kf
   /\ Pop(t)
-  /\ UNCHANGED <<descr, facade, sensor, announced, locBr, connBr, net, nNet, nSusp, nReset, nBg, last, nextEp, nextFac, found,
+  /\ UNCHANGED <<descr, facade, sensor, announced, locBr, connBr, net, nNet, nSusp, nReset, nBg, nFail, last, nextEp, nextFac, found,
                  exited, spaConn, epOpen, facTask, locEp, locTasks>>
 
 \* ---------------------------------------------------------------- sequence pump
-StepPump(t) ==
+\* an exception inside the pump's try block: the pending finally frames run, the handler logs, then the
+\* loop's sleep (everything else of this iteration is skipped)
+Unwind(sq) == OnlyFinally(sq) \o <<F("pumpSleep")>>
+PumpBody(t, fail) ==
   LET fr == Head(todo[t]) IN
   /\ t = PUMP /\ fr.f \in {"pumpTop", "pumpIf2", "pumpSleep", "locNew", "locWait", "locDone", "connIf", "spaNew", "hs", "hsDone", "facadeIf", "die"}
+  /\ nFail' = IF fail THEN nFail + 1 ELSE nFail
   /\ CASE fr.f = "pumpTop" ->
             /\ running' = t
             /\ IF st = "IDLE" /\ descr = "none"
@@ -203,9 +208,14 @@ StepPump(t) ==
             /\ running' = None /\ Push(t, <<F("pumpTop")>>)
             /\ UNCHANGED <<descr, facade, spa, spaConn, spaOpen, epOpen, spaTasks, facTask, locEp, locTasks, alive, dying, nextEp, nextFac, found, kf>>
        [] fr.f = "locNew" ->                                      \* create_datagram_endpoint (awaits), LOC tasks
-            /\ running' = None /\ locEp' = TRUE /\ locTasks' = TRUE /\ found' = FALSE
-            /\ alive' = [alive EXCEPT ![LOC] = TRUE] /\ Pop(t)
-            /\ UNCHANGED <<descr, facade, spa, spaConn, spaOpen, epOpen, spaTasks, facTask, dying, nextEp, nextFac, kf>>
+            IF fail
+            THEN \* the endpoint cannot be created: discover() raises before anything exists
+                 /\ running' = None /\ todo' = [todo EXCEPT ![t] = Unwind(Tail(@))]
+                 /\ UNCHANGED <<descr, facade, spa, spaConn, spaOpen, epOpen, spaTasks, facTask, dying, nextEp, nextFac, kf,
+                                locEp, locTasks, found, alive>>
+            ELSE /\ running' = None /\ locEp' = TRUE /\ locTasks' = TRUE /\ found' = FALSE
+                 /\ alive' = [alive EXCEPT ![LOC] = TRUE] /\ Pop(t)
+                 /\ UNCHANGED <<descr, facade, spa, spaConn, spaOpen, epOpen, spaTasks, facTask, dying, nextEp, nextFac, kf>>
        [] fr.f = "locWait" ->                                     \* the polling loop of discover()
             /\ running' = None /\ Pop(t)
             /\ UNCHANGED <<descr, facade, spa, spaConn, spaOpen, epOpen, spaTasks, facTask, locEp, locTasks, alive, dying, nextEp, nextFac, found, kf>>
@@ -226,6 +236,14 @@ StepPump(t) ==
                                    F("facadeIf"), RF("CONNECTION_FINISHED")>>)
             /\ UNCHANGED <<descr, facade, spa, spaConn, spaOpen, epOpen, spaTasks, facTask, locEp, locTasks, alive, dying, nextEp, nextFac, found, kf>>
        [] fr.f = "spaNew" ->                                      \* GeckoAsyncSpa(...); _connect opens the endpoint (awaits)
+            IF fail
+            THEN \* the spa object exists (self._spa is set) but _connect raised before it had a protocol or tasks
+                 /\ running' = None
+                 /\ spa' = nextEp /\ nextEp' = nextEp + 1
+                 /\ todo' = [todo EXCEPT ![t] = Unwind(Tail(@))]
+                 /\ UNCHANGED <<descr, facade, spaConn, spaOpen, epOpen, spaTasks, facTask, locEp, locTasks, alive, dying, nextFac,
+                                found, kf>>
+            ELSE
             /\ running' = None
             /\ spa' = nextEp /\ nextEp' = nextEp + 1
             /\ spaOpen' = [spaOpen EXCEPT ![nextEp] = TRUE] /\ epOpen' = [epOpen EXCEPT ![nextEp] = TRUE]
@@ -293,7 +311,10 @@ StepPump(t) ==
        [] fr.f = "die" ->                                         \* the exception leaves _sequence_pump
             /\ running' = None /\ alive' = [alive EXCEPT ![t] = FALSE] /\ todo' = [todo EXCEPT ![t] = <<>>]
             /\ UNCHANGED <<descr, facade, spa, spaConn, spaOpen, epOpen, spaTasks, facTask, locEp, locTasks, dying, nextEp, nextFac, found, kf>>
-  /\ UNCHANGED <<st, sensor, announced, locBr, connBr, net, nNet, nSusp, nReset, nBg, last, exited>>
+  /\ UNCHANGED <<st, sensor, announced, locBr, connBr, net, nNet, nSusp, nReset, nBg, last, exited>>   \* (nFail: above)
+
+StepPump(t) ==
+  \E fail \in (IF Head(todo[t]).f \in {"locNew", "spaNew"} /\ nFail < MaxSockFail THEN BOOLEAN ELSE {FALSE}) : PumpBody(t, fail)
 
 \* the locator's hello consumer announces the spa (its own task)
 StepLoc ==
@@ -301,7 +322,7 @@ StepLoc ==
   /\ alive[LOC] /\ locTasks /\ (net = "ok" \/ Unreliable) /\ ~found /\ running = None /\ todo[LOC] = <<>>
   /\ found' = TRUE
   /\ todo' = [todo EXCEPT ![LOC] = <<R("LOCATING_DISCOVERED")>>]
-  /\ UNCHANGED <<st, descr, facade, spa, sensor, announced, locBr, connBr, kf, net, nNet, nSusp, nReset, nBg, running, alive, dying,
+  /\ UNCHANGED <<st, descr, facade, spa, sensor, announced, locBr, connBr, kf, net, nNet, nSusp, nReset, nBg, nFail, running, alive, dying,
                  last, nextEp, nextFac, exited>> /\ UNCH_RES
 
 \* ---------------------------------------------------------------- ping loop and background tasks of a connection
@@ -318,7 +339,7 @@ StepPing(t) ==
                      \/ /\ (net = "bad" \/ Unreliable) /\ Push(t, <<R("PING_MISSED"), R("PING_NO_RESPONSE"), F("pingSleep")>>)
                   /\ UNCHANGED alive
      ELSE /\ running' = None /\ Push(t, <<F("pingReq")>>) /\ UNCHANGED alive
-  /\ UNCHANGED <<st, descr, facade, spa, sensor, announced, locBr, connBr, kf, net, nNet, nSusp, nReset, nBg, dying, last, nextEp,
+  /\ UNCHANGED <<st, descr, facade, spa, sensor, announced, locBr, connBr, kf, net, nNet, nSusp, nReset, nBg, nFail, dying, last, nextEp,
                  nextFac, found, exited>> /\ UNCH_RES
 
 \* the refresh loop reports a failed status-block request as RETRY_EXCEEDED and then goes on to the channel
@@ -331,7 +352,7 @@ StepBg(t) ==
        /\ (ev \in {"RETRY_EXCEEDED", "CONN_RETRY_EXCEEDED"}) => (net = "bad" \/ Unreliable)
        /\ Push(t, <<R(ev), F("bgIdle")>>)
   /\ nBg' = nBg + 1 /\ running' = t
-  /\ UNCHANGED <<st, descr, facade, spa, sensor, announced, locBr, connBr, kf, net, nNet, nSusp, nReset, alive, dying, last, nextEp,
+  /\ UNCHANGED <<st, descr, facade, spa, sensor, announced, locBr, connBr, kf, net, nNet, nSusp, nReset, nFail, alive, dying, last, nextEp,
                  nextFac, found, exited>> /\ UNCH_RES
 
 \* a task whose frames are exhausted, or a dying (cancelled) task that has run its last frame
@@ -342,7 +363,7 @@ StepEnd(t) ==
   /\ alive' = IF dying[t] THEN [alive EXCEPT ![t] = FALSE] ELSE alive
   /\ dying' = [dying EXCEPT ![t] = FALSE]
   /\ todo' = IF dying[t] THEN [todo EXCEPT ![t] = <<>>] ELSE todo
-  /\ UNCHANGED <<st, descr, facade, spa, sensor, announced, locBr, connBr, kf, net, nNet, nSusp, nReset, nBg, last, nextEp, nextFac,
+  /\ UNCHANGED <<st, descr, facade, spa, sensor, announced, locBr, connBr, kf, net, nNet, nSusp, nReset, nBg, nFail, last, nextEp, nextFac,
                  found, exited>> /\ UNCH_RES
 
 \* ---------------------------------------------------------------- user and environment
@@ -352,14 +373,14 @@ UserReset ==
   /\ nReset' = nReset + 1
   /\ todo' = [todo EXCEPT ![USER] = ResetFrames \o <<F("resetReturn")>>]
   /\ alive' = [alive EXCEPT ![USER] = TRUE]
-  /\ UNCHANGED <<st, descr, facade, spa, sensor, announced, locBr, connBr, kf, net, nNet, nSusp, nBg, running, dying, last, nextEp,
+  /\ UNCHANGED <<st, descr, facade, spa, sensor, announced, locBr, connBr, kf, net, nNet, nSusp, nBg, nFail, running, dying, last, nextEp,
                  nextFac, found, exited>> /\ UNCH_RES
 StepUserReturn(t) ==
   /\ t = USER /\ Head(todo[t]).f = "resetReturn"
   /\ running' = None /\ Pop(t) /\ alive' = [alive EXCEPT ![t] = FALSE]
   /\ last' = [last EXCEPT !.ev = "reset-returned", !.st = st, !.fac = facade, !.spa = spa, !.descr = descr, !.by = t,
                            !.leak = ((\E e \in Eps : spaTasks[e]) \/ facTask)]
-  /\ UNCHANGED <<st, descr, facade, spa, sensor, announced, locBr, connBr, kf, net, nNet, nSusp, nReset, nBg, dying, nextEp, nextFac,
+  /\ UNCHANGED <<st, descr, facade, spa, sensor, announced, locBr, connBr, kf, net, nNet, nSusp, nReset, nBg, nFail, dying, nextEp, nextFac,
                  found, exited>> /\ UNCH_RES
 \* leaving the manager's context: cancel the pump, announce, cancel and await everything
 Exit ==
@@ -369,7 +390,7 @@ Exit ==
   /\ todo' = [t \in Tasks |-> IF t = MAIN THEN <<R("SPA_MAN_EXIT"), F("gather")>>
                                ELSE IF t = PUMP THEN OnlyFinally(todo[t]) ELSE todo[t]]
   /\ dying' = [dying EXCEPT ![PUMP] = alive[PUMP]]
-  /\ UNCHANGED <<st, descr, facade, spa, sensor, announced, locBr, connBr, kf, net, nNet, nSusp, nReset, nBg, running, last,
+  /\ UNCHANGED <<st, descr, facade, spa, sensor, announced, locBr, connBr, kf, net, nNet, nSusp, nReset, nBg, nFail, running, last,
                  nextEp, nextFac, found, exited>> /\ UNCH_RES
 StepGather(t) ==
   /\ t = MAIN /\ Head(todo[t]).f \in {"gather", "gathered"}
@@ -384,14 +405,14 @@ StepGather(t) ==
           /\ running' = None /\ exited' = TRUE /\ Pop(t)
           /\ alive' = [x \in Tasks |-> FALSE] /\ dying' = [x \in Tasks |-> FALSE]
           /\ spaTasks' = [e \in Eps |-> FALSE] /\ facTask' = FALSE /\ locTasks' = FALSE
-  /\ UNCHANGED <<st, descr, facade, spa, sensor, announced, locBr, connBr, kf, net, nNet, nSusp, nReset, nBg, last, nextEp, nextFac,
+  /\ UNCHANGED <<st, descr, facade, spa, sensor, announced, locBr, connBr, kf, net, nNet, nSusp, nReset, nBg, nFail, last, nextEp, nextFac,
                  found, spaConn, spaOpen, epOpen, locEp>>
 
 NetChange ==
   /\ fresh' = FALSE
   /\ nNet < MaxNet /\ running = None
   /\ net' = (IF net = "ok" THEN "bad" ELSE "ok") /\ nNet' = nNet + 1
-  /\ UNCHANGED <<st, descr, facade, spa, sensor, announced, locBr, connBr, kf, nSusp, nReset, nBg, running, todo, alive, dying, last,
+  /\ UNCHANGED <<st, descr, facade, spa, sensor, announced, locBr, connBr, kf, nSusp, nReset, nBg, nFail, running, todo, alive, dying, last,
                  nextEp, nextFac, found, exited>> /\ UNCH_RES
 
 \* `fresh`: the last step of the running task was a delivery (the only point at which the client
